@@ -386,6 +386,7 @@ func runC04(c *Ctx) {
 
 	// ---- R-C04-CLEAR
 	clearDrainRule(c, "R-C04-CLEAR")
+	closeDrainsRule(c, "R-C04-CLEAR")
 	importRules(c, runC09, map[string]string{"R-C09-VICTIM": "R-C04-VICTIMS", "R-C09-REJECT": "R-C04-VICTIMS"})
 	lockedMapClearRule(c, "R-C04-CLEAR")
 	c.Group("R-C04-CLEAR", "shardedMap.Clear", func() {
